@@ -9,9 +9,12 @@
      entry_static_len  zlen b = the class's static length()
      refuted: sl_plain_dot_length_refuted, sl_factory_dot_roundtrip_refuted, sf_high_without_depth_refuted,
               px_serial_dropped_refuted, pd_swallows_rest
-   SL name()/factory and the TF flag sweep are in Proofs/RRSLProofs.v. *)
+     tf_length_popcount  for all 256 flag bytes: length(flags) = 5 + (7|17) * #(bits 0..6 set) <= 124 (sweep)
+     tf_roundtrip     flags any byte, date contents universally quantified (7 or 17 bytes each, present
+                      exactly for the set bits)
+   SL name()/factory are in Proofs/RRSLProofs.v, the walker in Proofs/RRWalkProofs.v. *)
 From Coq Require Import ZArith List Bool Lia ZifyBool.
-From PV.Base Require Import Prim.
+From PV.Base Require Import Prim Sweep.
 From PV.Model Require Import Codec RREntries.
 From PV.Proofs Require Import CodecProofs.
 Import ListNotations.
@@ -432,22 +435,16 @@ Proof.
 Qed.
 
 (* RRTFRecord.length(): Kernighan's loop counts the set bits among bits 0..6 -- all 256 flag bytes *)
-Lemma tf_popcount_sweep :
-  forallb (fun fl => (popcount_loop 8 (Z.land fl 127) =? count_set fl tf_indices)
-                     && (len_tf fl <=? 124)) (zrange 0 256 1) = true.
+Definition tf_len_chk (fl : Z) : bool :=
+  (popcount_loop 8 (Z.land fl 127) =? count_set fl tf_indices) && (len_tf fl <=? 124).
+Lemma tf_popcount_sweep : sweep tf_len_chk 0 256 = true.
 Proof. vm_compute. reflexivity. Qed.
-Lemma in_zrange_256 fl : 0 <= fl <= 255 -> In fl (zrange 0 256 1).
-Proof.
-  intros H. assert (E : fl = Z.of_nat (Z.to_nat fl)) by lia. rewrite E.
-  assert (Hn : (Z.to_nat fl < 256)%nat) by lia. revert Hn. generalize (Z.to_nat fl). intros n Hn.
-  do 256 (destruct n as [|n]; [vm_compute; tauto|]). lia.
-Qed.
 Theorem tf_length_popcount fl : u8_ok fl = true ->
   len_tf fl = 5 + tf_each fl * count_set fl tf_indices /\ len_tf fl <= 124.
 Proof.
-  intros H. pose proof tf_popcount_sweep as S. rewrite forallb_forall in S.
-  specialize (S fl (in_zrange_256 fl ltac:(unfold u8_ok in H; lia))).
-  apply andb_prop in S. destruct S as [S1 S2]. unfold len_tf at 1. split; lia.
+  intros H. assert (Hr : 0 <= fl < 0 + Z.pos 256) by (unfold u8_ok in H; lia).
+  pose proof (sweep_sound tf_len_chk 0 256 tf_popcount_sweep fl Hr) as S.
+  unfold tf_len_chk in S. apply andb_prop in S. destruct S as [S1 S2]. unfold len_tf at 1. split; lia.
 Qed.
 
 Theorem tf_roundtrip t rest : tf_ok t = true ->
@@ -457,9 +454,10 @@ Theorem tf_roundtrip t rest : tf_ok t = true ->
 Proof.
   intros H. unfold tf_ok in H. apply andb_prop in H. destruct H as [Hf Hfs].
   destruct (tf_length_popcount _ Hf) as [L1 L2].
-  assert (L0 : 0 <= len_tf (tf_flags t)).
+  assert (L0 : 5 <= len_tf (tf_flags t)).
   { unfold len_tf. assert (forall n f, 0 <= popcount_loop n f).
-    { induction n; intros f; cbn; [lia|]. destruct (f =? 0); [lia|]. specialize (IHn (Z.land f (f - 1))). lia. }
+    { induction n as [|n IHn]; intros f; cbn [popcount_loop]; [lia|].
+      destruct (f =? 0); [lia|]. specialize (IHn (Z.land f (f - 1))). lia. }
     specialize (H 8%nat (Z.land (tf_flags t) 127)). unfold tf_each. destruct (flag_set _ 7); lia. }
   assert (U : u8_ok (len_tf (tf_flags t)) = true) by (unfold u8_ok; lia).
   unfold rec_tf. rewrite U, Hf. split; [reflexivity|]. split; [|split; [|exact L1]].
@@ -585,13 +583,13 @@ Proof.
     unfold er_ok in H. apply andb_prop in H. destruct H as [H _].
     pose proof (zlen_nonneg (er_id e)). pose proof (zlen_nonneg (er_des e)). pose proof (zlen_nonneg (er_src e)).
     eapply (G (len_er (er_id e) (er_des e) (er_src e))); [reflexivity| |unfold len_er in *; lia|reflexivity].
-    unfold enc_er. rewrite !zlen_app. change (zlen (sig_ER ++ concat (er_fields e))) with 8.
-    unfold len_er. lia.
+    unfold enc_er. rewrite !zlen_app. change (zlen sig_ER) with 2.
+    change (zlen (concat (er_fields e))) with 6. unfold len_er. lia.
   - unfold rec_es in R. rewrite H in R. apply some_inv in R. subst b.
     apply (G 5 [sq]); [reflexivity|reflexivity|lia|reflexivity].
   - destruct (pn_roundtrip p [] H) as [R' _]. rewrite R' in R. apply some_inv in R. subst b.
     eapply (G 20); [reflexivity|reflexivity|lia|reflexivity].
-  - destruct (sl_roundtrip s [] H) as (R' & _ & Z). rewrite R' in R. apply some_inv in R. subst b.
+  - destruct (sl_roundtrip s [] H) as (R' & _ & Hz). rewrite R' in R. apply some_inv in R. subst b.
     unfold sl_ok in H. rewrite !andb_true_iff in H. destruct H as (_ & H).
     assert (5 <= sl_current_length s).
     { unfold sl_current_length, len_sl. rewrite fold_left_sum.
@@ -599,7 +597,7 @@ Proof.
       { induction l as [|x l IH]; cbn; [lia|]. unfold sl_comp_length at 1.
         pose proof (zlen_nonneg x). destruct (is_special x); lia. }
       specialize (H0 (map comp_name (sl_comps s))). lia. }
-    eapply (G (sl_current_length s)); [reflexivity|exact Z|lia|reflexivity].
+    eapply (G (sl_current_length s)); [reflexivity|exact Hz|lia|reflexivity].
   - destruct (nm_roundtrip n [] H) as [R' _]. rewrite R' in R. apply some_inv in R. subst b.
     unfold nm_ok in H. rewrite !andb_true_iff in H. destruct H as (((_ & H) & _) & _).
     pose proof (zlen_nonneg (nm_name n)).
@@ -611,14 +609,14 @@ Proof.
     eapply (G 12); [reflexivity|reflexivity|lia|reflexivity].
   - apply some_inv in R. subst b. apply (G 4 []); [reflexivity|reflexivity|lia|reflexivity].
   - apply some_inv in R. subst b. apply (G 4 []); [reflexivity|reflexivity|lia|reflexivity].
-  - destruct (tf_roundtrip t [] H) as (R' & _ & Z & _). rewrite R' in R. apply some_inv in R. subst b.
+  - destruct (tf_roundtrip t [] H) as (R' & _ & Hz & _). rewrite R' in R. apply some_inv in R. subst b.
     unfold tf_ok in H. apply andb_prop in H. destruct H as [H _].
     destruct (tf_length_popcount _ H) as [L1 L2].
     assert (5 <= len_tf (tf_flags t)).
-    { rewrite <- Z. unfold enc_tf. rewrite zlen_app.
+    { rewrite <- Hz. unfold enc_tf. rewrite zlen_app.
       pose proof (zlen_nonneg (concat (tf_present (tf_fields t)))).
       change (zlen (sig_TF ++ _)) with 5. lia. }
-    eapply (G (len_tf (tf_flags t))); [reflexivity|exact Z|lia|reflexivity].
+    eapply (G (len_tf (tf_flags t))); [reflexivity|exact Hz|lia|reflexivity].
   - destruct (sf_roundtrip s [] H) as [R' _]. rewrite R' in R. apply some_inv in R. subst b.
     destruct s as [[h|] low [d|]]; try discriminate H;
       (eapply G; [reflexivity|reflexivity|cbn; lia|reflexivity]).
@@ -626,22 +624,23 @@ Proof.
     pose proof (zlen_nonneg padding).
     eapply (G (len_pd padding)); [reflexivity| |unfold len_pd in *; lia|reflexivity].
     unfold enc_pd. rewrite zlen_app. unfold len_pd. reflexivity.
-  - destruct (al_roundtrip a [] H) as (R' & _ & Z). rewrite R' in R. apply some_inv in R. subst b.
+  - destruct (al_roundtrip a [] H) as (R' & _ & Hz). rewrite R' in R. apply some_inv in R. subst b.
     unfold al_ok in H. rewrite !andb_true_iff in H. destruct H as (_ & H).
     assert (5 <= al_current_length a).
     { unfold al_current_length, len_al. rewrite (fold_left_sum (fun x => 2 + zlen x)).
       assert (forall l : list (list Z), 0 <= fold_right (fun n acc => 2 + zlen n + acc) 0 l).
-      { induction l as [|x l IH]; cbn; [lia|]. pose proof (zlen_nonneg x). lia. }
+      { induction l as [|x l IH]; cbn [fold_right]; [lia|]. pose proof (zlen_nonneg x). lia. }
       specialize (H0 (map c_data (al_comps a))). lia. }
-    eapply (G (al_current_length a)); [reflexivity|exact Z|lia|reflexivity].
+    eapply (G (al_current_length a)); [reflexivity|exact Hz|lia|reflexivity].
 Qed.
 
 Corollary entry_len_byte v e b : entry_ok v e = true -> rec_entry v e = Some b ->
   firstn 2 b = sig_of e /\ nth 2 b 0 = zlen b /\ nth 3 b 0 = 1.
 Proof.
   intros H R. destruct (entry_layout v e b H R) as (payload & E & _).
-  assert (Hs : exists s0 s1, sig_of e = [s0; s1]) by (destruct e; cbn; eauto).
-  destruct Hs as (s0 & s1 & Hs). rewrite Hs in E. rewrite E at 1 2 3. rewrite Hs. cbn. auto.
+  assert (Hs : exists s0 s1, sig_of e = [s0; s1]) by (destruct e; do 2 eexists; reflexivity).
+  destruct Hs as (s0 & s1 & Hs). rewrite Hs in *.
+  remember (zlen b) as L eqn:HL. clear HL. subst b. cbn. auto.
 Qed.
 
 (* ---- what the range predicates exclude, by counterexample (all reproduced on the real library) ---- *)
